@@ -8,7 +8,7 @@
    verified checker on the implementation's sorted views. *)
 From Coq Require Import ZArith Arith Bool List Permutation.
 From Coq Require Import QArith.
-From FC Require Import Model.Scalar Model.Mesh Model.SortSpec Model.FuzzySort Proofs.SortP Proofs.FuzzySortP.
+From FC Require Import Model.Scalar Model.Mesh Model.SortSpec Model.FuzzySort Model.FuzzySortAlgo Proofs.SortP Proofs.FuzzySortP Proofs.FuzzySortAlgoP.
 Import ListNotations.
 Local Open Scope nat_scope.
 
@@ -57,6 +57,27 @@ Theorem C02_check_noisy_sorted_sound : forall bss rel abs v1 v2,
   check_noisy_sorted bss rel abs v1 v2 = true -> points_close rel abs v1 v2 = true.
 Proof. exact check_noisy_sorted_sound. Qed.
 Print Assumptions C02_check_noisy_sorted_sound.
+
+(* the sorting STRATEGY of the library (sort by the first column, then re-sort every maximal run of neighbours that agree in
+   all previous columns by the next column — as repaired by the fix of F-C02a), modelled on class vectors with an arbitrary
+   column sorter, meets the specification for EVERY input: the premises of the theorems above are satisfiable by it *)
+Theorem C02_block_refinement_meets_spec :
+  forall (sortby : nat -> list zpoint -> list zpoint),
+  (forall k l, Permutation (sortby k l) l) ->
+  (forall k l, Sorted.StronglySorted (fun p q => (nth k p 0 <= nth k q 0)%Z) (sortby k l)) ->
+  forall d l, Forall (wfp d) l -> NoDup l ->
+  sorted_strict (fuzzy_lex_sort sortby d l) = true /\ Permutation (fuzzy_lex_sort sortby d l) l.
+Proof.
+  intros sortby HP HS d l HW ND. split.
+  - apply fuzzy_lex_sort_meets_spec; assumption.
+  - apply (fuzzy_lex_sort_correct sortby HP HS d l HW).
+Qed.
+Print Assumptions C02_block_refinement_meets_spec.
+
+Theorem C02_insertion_sorter_is_a_column_sorter : forall k l,
+  Permutation (isort_by k l) l /\ Sorted.StronglySorted (fun p q => (nth k p 0 <= nth k q 0)%Z) (isort_by k l).
+Proof. intros. split; [apply isort_by_perm | apply isort_by_sorted]. Qed.
+Print Assumptions C02_insertion_sorter_is_a_column_sorter.
 
 Example C02_nonvacuous :
   let P := [[2;0]; [0;1]; [0;0]; [1;5]]%Z in
